@@ -125,7 +125,9 @@ def check_pair(ma, mb, excl=frozenset()):
     if textlike_pair and res['a==b']:
         raise Violation('kind-aware', case, '%s and %s with the same text compare equal' % (ma[0], mb[0]), tags)
     same_kind = ma[0] == mb[0]
-    d = model.diff(ma, mb)
+    # "identically built" means identical models; the comparator's six-decimal coordinate tolerance must not
+    # make two different coordinates count as copies of each other
+    d = None if repr(ma) == repr(mb) else (model.diff(ma, mb) or 'values differ within the comparator tolerance')
     if same_kind and d is None and not has_nan(ma):
         if is_grid and ('grideq.inf' in excl):
             pass
